@@ -26,6 +26,19 @@ class Vec:
         return "Vec(%r)" % (self.items,)
 
 
+class CellRef:
+    """A mutable reference to one scalar element of a vector (what `iter_mut()` / `&mut v[i]` hands out)."""
+
+    def __init__(self, vec, idx):
+        self.vec, self.idx = vec, idx
+
+    def get(self):
+        return self.vec.items[self.idx]
+
+    def set(self, v):
+        self.vec.items[self.idx] = v
+
+
 class View:
     def __init__(self, vec, lo, hi):
         self.vec, self.lo, self.hi = vec, lo, hi
@@ -111,6 +124,9 @@ class VecInterp(SE.Interp):
                     raise H.Unsupported("subtraction underflow (would panic)")
                 return v
             raise H.Unsupported("arithmetic on %r, %r" % (a, b))
+        if k == "unary" and e0["op"] == "*":
+            v = self.ev(e0["e"], env)
+            return v.get() if isinstance(v, CellRef) else v
         if k == "unary" and e0["op"] == "-":
             v = self.ev(e0["e"], env)
             if isinstance(v, int) and not isinstance(v, bool):
@@ -177,7 +193,18 @@ class VecInterp(SE.Interp):
         if not (H.is_k(sc, "call") and sc["args"]):
             raise H.Unsupported("for loop shape")
         rng = self.ev(sc["args"][0], env)
-        if not (isinstance(rng, tuple) and rng[0] == "range"):
+        seq = None
+        if isinstance(rng, tuple) and rng and rng[0] == "iter":
+            seq = list(rng[1])
+        elif isinstance(rng, (Vec, View)):
+            mut_ = str(H.unwrap(sc["args"][0]).get("ty", "")).startswith("&mut") or str(H.unwrap(sc["args"][0]).get("adj_ty", "")).startswith("&mut")
+            if mut_:
+                seq = self.ext_method("iter_mut", "", rng, [])[1]
+            else:
+                seq = list(rng.items if isinstance(rng, Vec) else rng.get())
+        elif isinstance(rng, tuple) and rng and rng[0] == "range":
+            seq = list(range(rng[1], rng[2] + (1 if rng[3] else 0)))
+        if seq is None:
             raise H.Unsupported("for loop over %r" % (rng,))
         inner = H.find(e0["arms"][0]["body"], lambda n: H.is_k(n, "match") and n is not e0)
         some_arm = None
@@ -193,7 +220,7 @@ class VecInterp(SE.Interp):
             raise H.Unsupported("for loop desugaring")
         p = some_arm["pat"]
         item_pat = p["pats"][0] if p["p"] == "tuplestruct" else p["fields"][0]["pat"]
-        for i in range(rng[1], rng[2] + (1 if rng[3] else 0)):
+        for i in seq:
             e2 = dict(env)
             self.match_pat(item_pat, i, e2)
             try:
@@ -207,6 +234,11 @@ class VecInterp(SE.Interp):
 
     def assign(self, lhs, v, env):
         lhs0 = H.unwrap(lhs)
+        if H.is_k(lhs0, "unary") and lhs0["op"] == "*":
+            tgt = self.ev(lhs0["e"], env)
+            if isinstance(tgt, CellRef):
+                tgt.set(v)
+                return
         if H.is_k(lhs0, "index"):
             base = self.ev(lhs0["base"], env)
             idx = self.ev(lhs0["idx"], env)
@@ -257,6 +289,8 @@ class VecInterp(SE.Interp):
     def ext_call(self, fp, args):
         if fp.endswith("iter::sources::repeat::repeat"):
             return ("repeat", args[0])
+        if fp.endswith("Vec::<T>::new") or fp.endswith("Vec::<T>::with_capacity") or fp.endswith("vec::Vec::new"):
+            return Vec([])
         last = fp.rsplit("::", 1)[-1]
         if last in ("min", "max") and len(args) == 2 and all(isinstance(a, int) and not isinstance(a, bool) for a in args):
             return min(args) if last == "min" else max(args)
@@ -265,8 +299,148 @@ class VecInterp(SE.Interp):
         return super().ext_call(fp, args)
 
     def ext_method(self, name, callee, recv, args):
+        # ---- finite iterator algebra: an iterator over a vector / slice / range is the list of its items ----------
+        if isinstance(recv, (Vec, View)) and name in ("iter", "into_iter"):
+            return ("iter", list(recv.items if isinstance(recv, Vec) else recv.get()))
+        if isinstance(recv, (Vec, View)) and name == "iter_mut":
+            vec = recv if isinstance(recv, Vec) else recv.vec
+            off = 0 if isinstance(recv, Vec) else recv.lo
+            n_ = len(recv.items) if isinstance(recv, Vec) else recv.hi - recv.lo
+            return ("iter", [vec.items[off + i] if isinstance(vec.items[off + i], tuple) and vec.items[off + i][:1] == ("obj",) else CellRef(vec, off + i) for i in range(n_)])
+        if isinstance(recv, tuple) and recv and recv[0] == "range" and name in ("into_iter", "iter", "rev", "step_by", "map", "filter", "filter_map", "enumerate", "collect", "count", "for_each", "take", "skip"):
+            recv = ("iter", list(range(recv[1], recv[2] + (1 if recv[3] else 0))))
+            if name in ("into_iter", "iter"):
+                return recv
+        if isinstance(recv, tuple) and recv and recv[0] == "iter":
+            xs = recv[1]
+            if name in ("into_iter", "iter", "by_ref", "copied", "cloned", "peekable", "fuse"):
+                return recv
+            if name == "enumerate":
+                return ("iter", [("t", (i, x)) for i, x in enumerate(xs)])
+            if name == "rev":
+                return ("iter", list(reversed(xs)))
+            if name == "map":
+                return ("iter", [self.call_closure(args[0], [x]) for x in xs])
+            if name == "filter":
+                return ("iter", [x for x in xs if self.call_closure(args[0], [x]) is True])
+            if name == "filter_map":
+                out = []
+                for x in xs:
+                    r = self.call_closure(args[0], [x])
+                    if r == H.NONE_V:
+                        continue
+                    if isinstance(r, tuple) and r[0] == "v" and r[1] == H.SOME:
+                        out.append(r[2][0])
+                    else:
+                        raise H.Unsupported("filter_map closure result %r" % (r,))
+                return ("iter", out)
+            if name == "take" and isinstance(args[0], int):
+                return ("iter", xs[:args[0]])
+            if name == "skip" and isinstance(args[0], int):
+                return ("iter", xs[args[0]:])
+            if name == "step_by" and isinstance(args[0], int) and args[0] > 0:
+                return ("iter", xs[::args[0]])
+            if name == "take_while":
+                out = []
+                for x in xs:
+                    if self.call_closure(args[0], [x]) is not True:
+                        break
+                    out.append(x)
+                return ("iter", out)
+            if name == "skip_while":
+                i = 0
+                while i < len(xs) and self.call_closure(args[0], [xs[i]]) is True:
+                    i += 1
+                return ("iter", xs[i:])
+            if name == "zip" and isinstance(args[0], tuple) and args[0] and args[0][0] == "iter":
+                return ("iter", [("t", (a, b)) for a, b in zip(xs, args[0][1])])
+            if name == "chain" and isinstance(args[0], tuple) and args[0] and args[0][0] == "iter":
+                return ("iter", xs + args[0][1])
+            if name == "collect":
+                return Vec(xs)
+            if name == "count":
+                return len(xs)
+            if name in ("all", "any"):
+                rs = [self.call_closure(args[0], [x]) for x in xs]
+                return all(r is True for r in rs) if name == "all" else any(r is True for r in rs)
+            if name in ("nth", "nth_back") and isinstance(args[0], int):
+                ys = xs if name == "nth" else list(reversed(xs))
+                return H.some(ys[args[0]]) if args[0] < len(ys) else H.NONE_V
+            if name in ("next", "next_back", "last"):
+                if not xs:
+                    return H.NONE_V
+                return H.some(xs[0] if name == "next" else xs[-1])
+            if name == "position":
+                for i, x in enumerate(xs):
+                    if self.call_closure(args[0], [x]) is True:
+                        return H.some(i)
+                return H.NONE_V
+            if name == "for_each":
+                for x in xs:
+                    self.call_closure(args[0], [x])
+                return ("t", ())
+            if name in ("min", "max") and xs and all(isinstance(x, int) for x in xs):
+                return H.some(min(xs) if name == "min" else max(xs))
+            if name == "sum" and all(isinstance(x, int) for x in xs):
+                return sum(xs)
+            raise H.Unsupported("iterator adaptor %s" % name)
+        if isinstance(recv, int) and not isinstance(recv, bool) and args and isinstance(args[0], int):
+            a0 = args[0]
+            if name == "checked_sub":
+                return H.some(recv - a0) if recv - a0 >= 0 else H.NONE_V
+            if name == "checked_add":
+                return H.some(recv + a0)
+            if name == "wrapping_sub":
+                return (recv - a0) % (1 << 64)
+            if name == "abs_diff":
+                return abs(recv - a0)
+            if name == "pow":
+                return recv ** a0
+            if name in ("cmp", "partial_cmp"):
+                o = ("v", "core::cmp::Ordering::" + ("Less" if recv < a0 else "Equal" if recv == a0 else "Greater"))
+                return o if name == "cmp" else H.some(o)
         if isinstance(recv, (Vec, View)):
             items = recv.items if isinstance(recv, Vec) else recv.get()
+            if name == "copy_within" and isinstance(args[0], tuple) and args[0] and args[0][0] in ("range", "rangefrom") and isinstance(args[1], int):
+                lo = args[0][1]
+                hi = len(items) if args[0][0] == "rangefrom" else args[0][2] + (1 if args[0][3] else 0)
+                if not (0 <= lo <= hi <= len(items)) or args[1] + (hi - lo) > len(items):
+                    raise H.Unsupported("copy_within out of bounds (would panic)")
+                seg = items[lo:hi]
+                new = list(items)
+                new[args[1]:args[1] + len(seg)] = seg
+                if isinstance(recv, Vec):
+                    recv.items[:] = new
+                else:
+                    recv.put(new)
+                return ("t", ())
+            if name == "swap" and len(args) == 2 and all(isinstance(a, int) for a in args):
+                if not all(0 <= a < len(items) for a in args):
+                    raise H.Unsupported("swap index out of bounds (would panic)")
+                new = list(items)
+                new[args[0]], new[args[1]] = new[args[1]], new[args[0]]
+                if isinstance(recv, Vec):
+                    recv.items[:] = new
+                else:
+                    recv.put(new)
+                return ("t", ())
+            if name in ("first", "last"):
+                return H.some(items[0] if name == "first" else items[-1]) if items else H.NONE_V
+            if name in ("get", "get_mut") and isinstance(args[0], int):
+                return H.some(items[args[0]]) if 0 <= args[0] < len(items) else H.NONE_V
+            if name == "partition_point":
+                i = 0
+                while i < len(items) and self.call_closure(args[0], [items[i]]) is True:
+                    i += 1
+                return i
+            if name == "binary_search" and all(isinstance(x, int) for x in items) and isinstance(args[0], int):
+                if args[0] in items:
+                    return ("v", "core::result::Result::Ok", (items.index(args[0]),))
+                return ("v", "core::result::Result::Err", (len([x for x in items if x < args[0]]),))
+            if name == "contains":
+                return args[0] in items
+            if name == "to_vec":
+                return Vec([deep(x) for x in items])
 
             def store(new):
                 if isinstance(recv, Vec):
@@ -297,6 +471,12 @@ class VecInterp(SE.Interp):
                     if isinstance(it, tuple) and it[0] == "take":
                         recv.items.extend([deep(it[1]) for _ in range(it[2])])
                         return ("t", ())
+                    if isinstance(it, tuple) and it[0] == "iter":
+                        recv.items.extend([deep(x) for x in it[1]])
+                        return ("t", ())
+                    if isinstance(it, (Vec, View)):
+                        recv.items.extend([deep(x) for x in (it.items if isinstance(it, Vec) else it.get())])
+                        return ("t", ())
                     raise H.Unsupported("extend with %r" % (it,))
                 if name == "truncate":
                     del recv.items[args[0]:]
@@ -319,6 +499,27 @@ class VecInterp(SE.Interp):
                     return ("t", ())
                 if name in ("reserve", "reserve_exact", "shrink_to_fit"):
                     return ("t", ())
+                if name == "clear":
+                    recv.items[:] = []
+                    return ("t", ())
+                if name == "resize" and isinstance(args[0], int):
+                    if args[0] <= len(recv.items):
+                        del recv.items[args[0]:]
+                    else:
+                        recv.items.extend([deep(args[1]) for _ in range(args[0] - len(recv.items))])
+                    return ("t", ())
+                if name == "remove" and isinstance(args[0], int):
+                    if not 0 <= args[0] < len(recv.items):
+                        raise H.Unsupported("remove index out of bounds (would panic)")
+                    return recv.items.pop(args[0])
+                if name == "pop":
+                    return H.some(recv.items.pop()) if recv.items else H.NONE_V
+                if name == "split_off" and isinstance(args[0], int):
+                    if not 0 <= args[0] <= len(recv.items):
+                        raise H.Unsupported("split_off out of bounds (would panic)")
+                    tail = recv.items[args[0]:]
+                    del recv.items[args[0]:]
+                    return Vec(tail)
         if name == "take" and isinstance(recv, tuple) and recv and recv[0] == "repeat" and isinstance(args[0], int):
             return ("take", recv[1], args[0])
         if name in ("min", "max") and isinstance(recv, int) and isinstance(args[0], int):
@@ -329,6 +530,11 @@ class VecInterp(SE.Interp):
             return max(args[0], min(recv, args[1]))
         if name == "clone":
             return deep(recv)
+        if name == "clone_from" and isinstance(recv, tuple) and recv and recv[0] == "obj" and isinstance(args[0], tuple) and args[0] and args[0][0] == "obj":
+            src_ = deep(args[0])
+            recv[2].clear()
+            recv[2].update(src_[2])
+            return ("t", ())
         if callee.startswith("core::option::Option") and name in ("as_ref", "as_mut", "copied", "cloned"):
             return recv
         if callee.startswith("core::option::Option") and name == "or":
@@ -879,3 +1085,66 @@ def ctor_semantics(ctx, w, S, rule):
                     return
     ctx.ok(rule, "all", {"cases": n})
     ctx.rule_counts[rule] = n
+
+
+
+class _Sink:
+    """A context that only remembers whether anything was reported (for silent semantic verdicts)."""
+
+    def __init__(self, tier="quick"):
+        self.bad = 0
+        self.tier = tier
+        self.rule_counts = {}
+        self.violations = []
+
+    def rule(self, *a, **k):
+        pass
+
+    def ok(self, *a, **k):
+        pass
+
+    def note(self, *a, **k):
+        pass
+
+    def violation(self, rule, subject, message, loc=None, detail=None):
+        self.bad += 1
+        self.violations.append({"rule": rule, "subject": subject, "message": message})
+
+    def missing_anchor(self, rule, anchor, why=""):
+        self.bad += 1
+        self.violations.append({"rule": rule, "subject": anchor, "message": why})
+
+    def check(self, cond, rule, subject, message, loc=None, sample=None, detail=None):
+        if not cond:
+            self.violation(rule, subject, message)
+        return cond
+
+    def floor(self, *a, **k):
+        pass
+
+
+def scroll_ok(w, S):
+    """Silent verdict of the scroll-primitive specification (cached per fact set): True iff scroll_primitives reports nothing."""
+    c = getattr(w.facts, "_scroll_ok", None)
+    if c is None:
+        sink = _Sink()
+        try:
+            scroll_primitives(sink, w, S, "_", spec=True)
+            c = sink.bad == 0
+        except Exception:
+            c = False
+        w.facts._scroll_ok = c
+    return c
+
+
+def rows_ok(w, S):
+    c = getattr(w.facts, "_rows_ok", None)
+    if c is None:
+        sink = _Sink()
+        try:
+            row_primitives(sink, w, S, "_", spec=True)
+            c = sink.bad == 0
+        except Exception:
+            c = False
+        w.facts._rows_ok = c
+    return c
